@@ -147,6 +147,45 @@ Proof.
   repeat constructor; unfold valid_dgram; vm_compute; try reflexivity; discriminate.
 Qed.
 
+(* ---- OS-level behaviour that no in-memory model exhibits is pinned syntactically: the relay code sets no socket option
+        and no deadline on the connections it relays (no SetLinger(0) that would purge delivered-but-unread bytes on Close,
+        no read deadline that would cut a quiet direction) ---- *)
+Lemma relay_sets_no_socket_options : RelaySocketOptionCalls = 0.
+Proof. reflexivity. Qed.
+Lemma session_ttl_positive : 0 < UdpSessionTTLSeconds.
+Proof. vm_compute. reflexivity. Qed.
+
+(* every tick of the 20 ms ticker flushes whatever is batched, unconditionally *)
+Lemma c12_tick_flushes e :
+  e_batch (estep UdpBatchBufSize e EvTick) = [] /\
+  concat (e_out (estep UdpBatchBufSize e EvTick)) = concat (e_out e) ++ e_batch e.
+Proof. exact (tick_flushes_everything UdpBatchBufSize e). Qed.
+
+(* the quiet-interval variant: a steady trickle (a datagram between any two ticks) is never flushed *)
+Lemma c12_quiet_tick_refuted :
+  let q := fold_left (qstep UdpBatchBufSize) [EvD [1]; EvTick; EvD [2]; EvTick; EvD [3]; EvTick; EvD [4]; EvTick]
+                     {| q_e := est0; q_last := 0 |} in
+  e_out (q_e q) = [] /\ e_batch (q_e q) = [0; 1; 1; 0; 1; 2; 0; 1; 3; 0; 1; 4].
+Proof. vm_compute. split; reflexivity. Qed.
+
+(* the local UDP session: traffic in either direction at least every TTL keeps it open, no relay write is refused *)
+Lemma c12_session_survives : forall evs s,
+  ss_closed s = false -> live_traffic UdpSessionTTLSeconds (ss_last s) evs ->
+  ss_closed (sess_run true UdpSessionTTLSeconds s evs) = false /\
+  ss_lost (sess_run true UdpSessionTTLSeconds s evs) = ss_lost s.
+Proof. exact (session_survives_live_traffic UdpSessionTTLSeconds). Qed.
+
+(* the variant whose Write does not refresh the stamp: one datagram from the application at t = 0, then a feed of
+   tunnel->UDP datagrams every 10 s with the cleanup pass after each — the session is closed at t = 70 although a
+   datagram was delivered 0 s before, and the rest of the feed is refused *)
+Definition feed_history : list sev :=
+  flat_map (fun k => [SOut (10 * N.of_nat k); SCleanup (10 * N.of_nat k)]) (seq 1 9).
+Lemma c12_session_out_only_refuted :
+  live_traffic UdpSessionTTLSeconds 0 feed_history /\
+  ss_closed (sess_run false UdpSessionTTLSeconds {| ss_last := 0; ss_closed := false; ss_lost := 0 |} feed_history) = true /\
+  ss_lost (sess_run false UdpSessionTTLSeconds {| ss_last := 0; ss_closed := false; ss_lost := 0 |} feed_history) = 2.
+Proof. vm_compute. repeat split; try reflexivity; discriminate. Qed.
+
 (* ---- read failures: no failure kind is ever retried (a sticky one would spin the relay for ever) ---- *)
 Lemma retry_table_is_model :
   map (fun r => fst r) relay_retry_table = flat_map (fun site => map (fun kind => (site, kind)) [0; 1; 2; 3; 4; 5; 6; 7; 8; 9]) [0; 1; 2; 3] /\
